@@ -329,6 +329,9 @@ def expand_plates(obj, parent=None, idx=None):
                     else:
                         replace_star_with_str(clone, str(i))
                     objects.append(clone)
+                # plates nested in the clones: the enclosing loop does not come
+                # back to the first clone once the list has been modified
+                expand_plates(objects)
                 # replace plate dict with object list in parent list
                 if idx is not None:
                     del parent[idx]
